@@ -121,30 +121,32 @@ func (a *agg) merge(st *stats) {
 
 var ctx = context.Background()
 
-func opts(validation bool) []serix.Option {
+// opts: validation on/off plus serix.WithTypeSettings for top-level shapes that carry such settings.
+func opts(s *sergen.Shape, validation bool) []serix.Option {
+	var o []serix.Option
 	if validation {
-		return []serix.Option{serix.WithValidation()}
+		o = append(o, serix.WithValidation())
 	}
-	return nil
+	return append(o, sergen.TopOptions(s)...)
 }
 
-func safeEncode(api *serix.API, x any, validation bool) (b []byte, err error, pan any) {
+func safeEncode(api *serix.API, s *sergen.Shape, x any, validation bool) (b []byte, err error, pan any) {
 	defer func() {
 		if p := recover(); p != nil {
 			pan = p
 		}
 	}()
-	b, err = api.Encode(ctx, x, opts(validation)...)
+	b, err = api.Encode(ctx, x, opts(s, validation)...)
 	return
 }
 
-func safeDecode(api *serix.API, b []byte, dst any, validation bool) (n int, err error, pan any) {
+func safeDecode(api *serix.API, s *sergen.Shape, b []byte, dst any, validation bool) (n int, err error, pan any) {
 	defer func() {
 		if p := recover(); p != nil {
 			pan = p
 		}
 	}()
-	n, err = api.Decode(ctx, b, dst, opts(validation)...)
+	n, err = api.Decode(ctx, b, dst, opts(s, validation)...)
 	return
 }
 
@@ -209,7 +211,7 @@ func markName(m sergen.Mark) string {
 
 func forward(st *stats, u *sergen.Universe, si int, s *sergen.Shape, v *sergen.Val, vi int, validation bool) (accepted []byte) {
 	x := sergen.Build(s, v, rand.New(rand.NewSource(u.Seed+int64(vi)))).Interface()
-	b, err, pan := safeEncode(u.API, x, validation)
+	b, err, pan := safeEncode(u.API, s, x, validation)
 	if pan != nil {
 		st.count("encoder_panics_not_claimed", 1)
 		return nil
@@ -220,6 +222,9 @@ func forward(st *stats, u *sergen.Universe, si int, s *sergen.Shape, v *sergen.V
 	}
 	ref, marks := sergen.RefEncode(s, v)
 	st.count("reference_comparisons", 1)
+	if s.Top != nil {
+		st.count("toplevel_with_type_settings_comparisons", 1)
+	}
 	st.count("evaluations", 1)
 	if !bytes.Equal(b, ref) {
 		d := firstDiff(b, ref)
@@ -469,7 +474,7 @@ func hasSaturatedTime(s *sergen.Shape, v *sergen.Val) bool {
 func reverseOne(st *stats, u *sergen.Universe, si int, s *sergen.Shape, vi int, orig []byte, m mutant) {
 	st.count("reverse_candidates", 1)
 	dst := sergen.New(s)
-	n, err, pan := safeDecode(u.API, m.b, dst.Interface(), true)
+	n, err, pan := safeDecode(u.API, s, m.b, dst.Interface(), true)
 	if pan != nil {
 		st.count("decoder_panics_not_claimed_here", 1)
 		st.note("decpanic", fmt.Sprintf("observation (C02's subject, not C03's): Decode panicked on a mutated encoding: %v", pan))
@@ -506,7 +511,7 @@ func reverseOne(st *stats, u *sergen.Universe, si int, s *sergen.Shape, vi int, 
 		st.count("accepted_mutants/kind="+m.kind, 1)
 		st.dist("nontrivial", fmt.Sprintf("%016x/%s/%s", s.Hash(), m.kind, rule))
 	}
-	b2, err2, pan2 := safeEncode(u.API, dst.Elem().Interface(), true)
+	b2, err2, pan2 := safeEncode(u.API, s, dst.Elem().Interface(), true)
 	switch {
 	case pan2 != nil || err2 != nil:
 		what := fmt.Sprintf("validated Decode accepted a %s mutant (%d of %d bytes) but the decoded value cannot be re-encoded with validation: %v %v", m.kind, n, len(m.b), err2, pan2)
@@ -571,6 +576,30 @@ func hasZeroWidthElems(s *sergen.Shape, depth int) bool {
 	return false
 }
 
+func mapOrderingFlags(s *sergen.Shape, depth int) (f, t int) {
+	if depth > 10 {
+		return
+	}
+	add := func(c *sergen.Shape) { a, b := mapOrderingFlags(c, depth+1); f, t = f+a, t+b }
+	switch s.Kind {
+	case sergen.Map:
+		if s.R.LexSet && s.R.AutoOrder {
+			t++
+		} else if s.R.LexSet {
+			f++
+		}
+		add(s.Key)
+		add(s.Elem)
+	case sergen.Slice, sergen.Array, sergen.Ptr:
+		add(s.Elem)
+	case sergen.Struct:
+		for _, fl := range s.Fields {
+			add(fl.S)
+		}
+	}
+	return
+}
+
 func implCodes(u *sergen.Universe) []uint32 {
 	var out []uint32
 	for _, im := range u.Impl8 {
@@ -609,6 +638,17 @@ func exercise(st *stats, u *sergen.Universe, si int, s *sergen.Shape, nVals int,
 	}
 	st.count("shapes_exercised", 1)
 	if anyAccepted {
+		if f, t := mapOrderingFlags(s, 0); f > 0 || t > 0 {
+			if f > 0 {
+				st.count("shapes_with_map_lexical_ordering_explicitly_false", 1)
+			}
+			if t > 0 {
+				st.count("shapes_with_map_lexical_ordering_explicitly_true", 1)
+			}
+		}
+		if s.Top != nil {
+			st.count("toplevel_with_type_settings_shapes", 1)
+		}
 		st.dist("shapes", fmt.Sprintf("%016x", s.Hash()))
 		single, _ := s.Features()
 		for _, f := range single {
@@ -663,7 +703,9 @@ func run(c *vf.Ctx) {
 	for _, r := range []string{"map", "lexical", "nodup", "bounds", "plain"} {
 		c.Require("accepted_mutants/rule="+r, c.Pick(500, 10000))
 	}
-	c.Require("accepted_mutants/rule=mustoccur", c.Pick(100, 2000))
+	c.Require("shapes_with_map_lexical_ordering_explicitly_false", c.Pick(60, 1200))
+	c.Require("toplevel_with_type_settings_comparisons", c.Pick(4000, 80000))
+	c.Require("accepted_mutants/rule=mustoccur", c.Pick(30, 600))
 	c.Require("accepted_mutants/rule=oneofeach", c.Pick(40, 800))
 	for _, k := range []string{"count-value", "prefix-value", "optional-marker", "bool-byte", "element-swap", "element-duplicate", "element-drop", "type-code"} {
 		c.Require("accepted_mutants/kind="+k, c.Pick(100, 2000))
